@@ -398,6 +398,7 @@ class C15:
         XSH.env["XONSH_SUBPROC_RAISE_ERROR"] = False
         rec.case(nontrivial=sorted(graph.items()))
         rec.count("reentry_cases")
+        self.frames[0] = 0  # the logical step counter is per case
         try:
             with harness.alarm(30):
                 ex.exec(case["start"] + "\n", glbs={}, locs={}, mode="exec")
